@@ -11,7 +11,7 @@ import vlib
 LEVEL_TEXT = ('Lean 4 theorems, for all shapes/targets/parities: pad (2-D and cubes) is the restriction of the centred zero-extended '
               'array (origin sample floor(m/2) -> floor(S/2), every copied sample keeps its coordinate), its slices are in bounds, '
               'pad-then-crop is the identity; util.window: its whole decision tree is regenerated from the source (Gen.windowAct) and proved for all arguments to be: one-element input or neither argument -> input unchanged, shape= -> the centred crop/pad (origin floor(n/2) kept, 2-D and cubes), slice= inside the array -> exactly the index set [r0:r1, c0:c1], shape= and slice= -> that view iff shape equals the extent of the slice, AssertionError otherwise (window_dispatch, window_shape_keeps_origin, window_slice_indices, window_passthrough, window3_shape_keeps_origin); subarray/boundary/boundary_slice/slice_offset address the stated index sets; rebin '
-              'preserves the sum; util.centroid is regenerated statement by statement (Gen.centroid: normalisation by the total, np.mgrid lower bounds, grid/np.dot pairing, order of the returned pair) and proved over any field to return (row numerator / total, column numerator / total) of the quantities the following theorems are about (centroid_regenerated); the centroid of an array that is half-turn symmetric about a sample is that sample (also for any ring of weights: antialiased values), hence the centroid of a drawn circle / rectangle / hexagon with zero shift is the origin sample floor(n/2) UNDER the hypotheses of the theorem: row 0 of the image is zero when the row count is even and column 0 is zero when the column count is even (the mirror image of index 0 on an even axis falls outside the array; satisfiable: centroid_of_drawn_rectangle_instance, a 2x2 rectangle on 6x6 over Q) (centroid_of_drawn_shapes), the centroid of an indicator '
+              'preserves the sum — and the reshape target shape and summed axes of both branches of rebin are regenerated (Gen.rebinReshape2/3, Gen.rebinSumAxes2/3) and proved to address, in C order, exactly the factor x factor blocks the model sums (rebin_regenerated, rebin3_regenerated); util.centroid is regenerated statement by statement (Gen.centroid: normalisation by the total, np.mgrid lower bounds, grid/np.dot pairing, order of the returned pair) and proved over any field to return (row numerator / total, column numerator / total) of the quantities the following theorems are about (centroid_regenerated); the centroid of an array that is half-turn symmetric about a sample is that sample (also for any ring of weights: antialiased values), hence the centroid of a drawn circle / rectangle / hexagon with zero shift is the origin sample floor(n/2) UNDER the hypotheses of the theorem: row 0 of the image is zero when the row count is even and column 0 is zero when the column count is even (the mirror image of index 0 on an even axis falls outside the array; satisfiable: centroid_of_drawn_rectangle_instance, a 2x2 rectangle on 6x6 over Q) (centroid_of_drawn_shapes), the centroid of an indicator '
               'set is its mean position; mesh coordinates translate under integer '
               'shifts and negate under the half-turn index map; circle/rectangle/hexagon values lie in [0,1], are binary without '
               'antialiasing, translate under integer shifts (also spider) and are half-turn symmetric and mirror symmetric about the origin ROW (hexagons in both orientations; the column mirror of unrotated circles, rectangles and hexagons is their composition: column_mirror_when_unrotated) — via the closure of their six '
@@ -26,7 +26,7 @@ LEVEL_NOTE = ('Trusted: Lean kernel, py2lean subset semantics, NumPy slicing/res
               'real-valued margin to the edge is < 1e-9), generator coverage. Known finding: hex_segments(seg_gap=0, antialias=False) '
               'shares edge pixels between neighbours. Unproven: equal area up to edge sampling (oracle only).')
 TECHNIQUE = 'Lean 4 proof (omega/induction/Finset sums) over translator-regenerated index kernel + hand model with differential correspondence'
-GEN = ['Util', 'UtilWindow', 'UtilCentroid', 'Helper', 'Helper20', 'Hex', 'Mesh', 'Extent', 'FieldAccum', 'FieldDispatch', 'FieldIdx', 'FieldMerge']      # every Gen module imported transitively (Model/Field)
+GEN = ['Util', 'UtilWindow', 'UtilCentroid', 'UtilRebin', 'Helper', 'Helper20', 'Hex', 'Mesh', 'Extent', 'FieldAccum', 'FieldDispatch', 'FieldIdx', 'FieldMerge']      # every Gen module imported transitively (Model/Field)
 OPS = ['C20']
 RULE = ('cases: pad of 2-D arrays (all source/target sizes 1..9, every grow/shrink/parity mix) and cubes (depth 1..3, non-square), '
         'subarray incl. windows outside the array, boundary/boundary_slice/slice_offset on sparse integer arrays with thresholds and '
